@@ -46,60 +46,6 @@ def graph(F):
     return roots, F.callgraph_from(roots)
 
 
-def uniq_defs(b, l):
-    """Live whole-local definitions, textually identical ones (the copies jump threading makes of a shared tail) counted once."""
-    out, seen = [], set()
-    for d in b.whole_defs(l):
-        if d[0] not in b.live:
-            continue
-        x = d[3]
-        key = repr(x.get('rv')) if d[2] == 'assign' else repr((callee_name(x), x.get('args')))
-        if key in seen:
-            continue
-        seen.add(key)
-        out.append(d)
-    return out
-
-
-def norm_place(b, p):
-    """The place an operand really reads: copies / moves of the base local, `&x` followed by `*`, and the selection of a field
-    of a tuple / closure environment / struct built in this body are folded (`(*env.0)` with `env = closure(&len)` is `len`)."""
-    for _ in range(24):
-        proj = list(place_proj(p))
-        ds = uniq_defs(b, p['l'])
-        if len(ds) == 1 and ds[0][2] == 'call' and re.search(r'as std::ops::Try>::branch$', callee_name(ds[0][3]) or '') and ds[0][3]['args'] \
-                and len(proj) >= 2 and isinstance(proj[0], dict) and proj[0].get('d') == 'Continue' and op_place(ds[0][3]['args'][0]) is not None:
-            # `(branch(x) as Continue).0` is the Ok / Some payload of x
-            q = op_place(ds[0][3]['args'][0])
-            ty_ = b.local_ty(q['l']) or ''
-            var_ = 'Ok' if ty_.startswith('std::result::Result<') else 'Some'
-            p = {'l': q['l'], 'p': list(place_proj(q)) + [{'d': var_, 'vi': 0 if var_ == 'Ok' else 1}] + proj[1:]}
-            continue
-        if len(ds) != 1 or ds[0][2] != 'assign':
-            break
-        rv = ds[0][3]['rv']
-        if rv['k'] == 'agg' and rv.get('agg') == 'adt' and proj and isinstance(proj[0], dict) and 'd' in proj[0] and proj[0]['d'] == rv.get('variant'):
-            proj = proj[1:]     # downcast to the variant the value was built with
-            p = {'l': p['l'], 'p': proj}
-        if rv['k'] == 'use' and op_place(rv['op']) is not None:
-            q = op_place(rv['op'])
-            p = {'l': q['l'], 'p': list(place_proj(q)) + proj}
-        elif rv['k'] == 'ref' and proj and proj[0] == '*':
-            q = rv['place']
-            p = {'l': q['l'], 'p': list(place_proj(q)) + proj[1:]}
-        elif rv['k'] == 'agg' and proj and isinstance(proj[0], dict) and 'f' in proj[0]:
-            names = rv.get('names') or [str(i_) for i_ in range(len(rv.get('fields') or []))]
-            f_ = str(proj[0]['f'])
-            idx = names.index(f_) if f_ in names else (proj[0].get('i') if isinstance(proj[0].get('i'), int) and proj[0].get('i') < len(rv.get('fields') or []) else None)
-            if idx is None or op_place(rv['fields'][idx]) is None:
-                break
-            q = op_place(rv['fields'][idx])
-            p = {'l': q['l'], 'p': list(place_proj(q)) + proj[1:]}
-        else:
-            break
-    return p
-
-
 def ub_operand(b, op, depth=0):
     """Upper bound of an unsigned operand by constants / type widths, or None."""
     v = const_val(op)
@@ -359,6 +305,85 @@ def add_bounded(b, site):
     return ua is not None and uc is not None and ua + uc <= (1 << width) - 1 and (ua < (1 << width) - 1) and (uc < (1 << width) - 1)
 
 
+def _mentions(x, l):
+    if isinstance(x, dict):
+        if x.get('l') == l and ('p' in x or set(x) <= {'l', 'p'}):
+            return True
+        return any(_mentions(v, l) for v in x.values())
+    if isinstance(x, list):
+        return any(_mentions(v, l) for v in x)
+    return False
+
+
+def shrunk_copy_sub(F, b, site):
+    """`x.len() - y.len()` where `y` is a `&[u8]` that starts as a copy of the slice `x` and is afterwards only handed, by
+    `&mut`, to functions that are generic over the buffer (`fn f<B>(src: &mut B)`): such a function can change `y` only
+    through the trait methods of B, and every `Buf` method of `&[u8]` drops bytes from the front - `y` is a suffix of `x`,
+    so the difference cannot underflow. `x` itself must never be written or mutably borrowed."""
+    t = site['term']
+    if t.get('msg') != 'Overflow' or t.get('op') != 'Sub':
+        return False
+    bases = []
+    for op in (t['a'], t['b']):
+        p = op_place(op)
+        if p is None or place_proj(p):
+            return False
+        ds = uniq_defs(b, p['l'])
+        if len(ds) != 1 or ds[0][2] != 'call' or not re.search(r'slice::<impl \[T\]>::len$', callee_name(ds[0][3]) or '') or not ds[0][3]['args']:
+            return False
+        q = op_place(ds[0][3]['args'][0])
+        if q is None:
+            return False
+        q = norm_place(b, {'l': q['l'], 'p': list(place_proj(q)) + ['*']})
+        if place_proj(q) != ['*'] or (b.local_ty(q['l']) or '') != '&[u8]':
+            return False
+        bases.append(q['l'])
+    x, y = bases
+    dy = uniq_defs(b, y)
+    if x == y or len(dy) != 1 or dy[0][2] != 'assign' or dy[0][3]['rv']['k'] != 'use' or (op_place(dy[0][3]['rv']['op']) or {}).get('l') != x or place_proj(op_place(dy[0][3]['rv']['op'])):
+        return False
+    if [d for d in b.whole_defs(x) if d[0] in b.live] and not (1 <= x <= b.argc):
+        return False
+    if 1 <= x <= b.argc and [d for d in b.whole_defs(x) if d[0] in b.live]:
+        return False
+    # mutable borrows of x: none; of y: only into buffer-generic callees
+    muts = set()
+    for bi, j, st in b.assigns():
+        rv = st['rv']
+        if rv['k'] in ('ref', 'rawptr') and rv.get('mut', True):
+            base = rv['place']['l']
+            if base == x:
+                return False
+            if base == y and not place_proj(rv['place']):
+                muts.add(st['lhs']['l'])
+            elif base == y:
+                return False  # `&mut (*y)[..]`: the bytes, not the slice - not possible for &[u8], refuse anyway
+    for _ in range(6):
+        for bi, j, st in b.assigns():
+            rv = st['rv']
+            src = rv['place']['l'] if rv['k'] == 'ref' else (op_place(rv.get('op')) or {}).get('l') if rv['k'] == 'use' else None
+            if src in muts and not place_proj(st['lhs']):
+                muts.add(st['lhs']['l'])
+    for bi, j, st in b.assigns():
+        if place_proj(st['lhs']) and (st['lhs']['l'] in muts or st['lhs']['l'] in (x, y)):
+            return False  # a store through the reference / into the slice variable
+        rv = st['rv']
+        if any(_mentions(rv, m) for m in muts) and not (rv['k'] in ('ref', 'use') and not place_proj(st['lhs'])):
+            return False
+    for bi, t2 in b.calls():
+        for ai, a in enumerate(t2['args']):
+            q = op_place(a)
+            if q is None or q['l'] not in muts:
+                continue
+            nm = callee_name(t2) or ''
+            cb = F.bodies.get(nm)
+            ok = cb is not None and ai < cb.argc and re.fullmatch(r'&mut [A-Z]\w*', cb.local_ty(ai + 1) or '') and (cb.local_ty(ai + 1) or '')[5:] in (cb.d.get('generics') or [])
+            ok = ok or re.search(r"^<&(?:'\w+ )?\[u8\] as ntex_bytes::Buf>::", nm) is not None
+            if not ok:
+                return False
+    return True
+
+
 def nopanic(F, R, cg):
     import c16
     used = defaultdict(int)
@@ -387,6 +412,9 @@ def nopanic(F, R, cg):
                     continue
             if s['kind'] == 'assert' and (c16.guarded_arith(b, s) or add_bounded(b, s) or mul_bounded(b, s)):
                 R.ob('C02.nopanic', key, True, 'PROVEN: dominating guard / constant shift / operands bounded by their source types', s['loc'], status='proven')
+                continue
+            if s['kind'] == 'assert' and shrunk_copy_sub(F, b, s):
+                R.ob('C02.nopanic', key, True, 'PROVEN: length of a slice minus the length of a suffix of it (a copy only advanced through a buffer-generic callee)', s['loc'], status='proven')
                 continue
             if s['kind'] == 'unwrap' and c16.const_unwrap(b, s):
                 R.ob('C02.nopanic', key, True, 'PROVEN: unwrap of NonZero::new(non-zero literal)', s['loc'], status='proven')
